@@ -19,6 +19,12 @@
 //!        r = setters last-to-first, before sampling
 //! hq <mode> <dist> <seed> <n> <K> <init params…> <target params…> -> as `q`, same object history
 //!
+//! r <route> <dist> <seed> <n> <params…>   -> as `s` (n draws, state) through a peripheral route of the same object:
+//!        single = n calls of `sample()`; twice = `sample_n(n/3)` then `sample_n(n - n/3)` on the same object;
+//!        clone = the draws come from a `clone()` of the constructed object; default = `Default::default()` brought to
+//!        the parameters by `update`
+//! mvns <seed> <n> <d> <mean d> <cr> <cc> <cov>  -> as `mvn`, but the rows are n calls of `MVN::sample()`
+//!
 //! dist / params: normal mu sigma | gamma a b | beta a b | chi2 k | t dof | poisson lam | binomial n p |
 //!   exp lam | gumbel mu beta | pareto alpha xm | uniform a b | du lo hi | bern p
 use compute::distributions::*;
@@ -79,6 +85,59 @@ fn build(d: &D) -> Box<dyn Distribution1D> {
         D::Uniform(a, b) => Box::new(Uniform::new(a, b)),
         D::Du(a, b) => Box::new(DiscreteUniform::new(a, b)),
         D::Bern(p) => Box::new(Bernoulli::new(p)),
+    }
+}
+
+/// `clone()` of the constructed object (the original is dropped first).
+fn build_clone(d: &D) -> Box<dyn Distribution1D> {
+    macro_rules! cl {
+        ($e:expr) => {{
+            let o = $e;
+            let c = o.clone();
+            let _ = o;
+            Box::new(c)
+        }};
+    }
+    match *d {
+        D::Normal(a, b) => cl!(Normal::new(a, b)),
+        D::Gamma(a, b) => cl!(Gamma::new(a, b)),
+        D::Beta(a, b) => cl!(Beta::new(a, b)),
+        D::Chi2(k) => cl!(ChiSquared::new(k)),
+        D::T(v) => cl!(T::new(v)),
+        D::Poisson(l) => cl!(Poisson::new(l)),
+        D::Binomial(n, p) => cl!(Binomial::new(n, p)),
+        D::Exp(l) => cl!(Exponential::new(l)),
+        D::Gumbel(a, b) => cl!(Gumbel::new(a, b)),
+        D::Pareto(a, b) => cl!(Pareto::new(a, b)),
+        D::Uniform(a, b) => cl!(Uniform::new(a, b)),
+        D::Du(a, b) => cl!(DiscreteUniform::new(a, b)),
+        D::Bern(p) => cl!(Bernoulli::new(p)),
+    }
+}
+
+/// `Default::default()` brought to the parameters by `update`.
+fn build_default(d: &D) -> Box<dyn Distribution1D> {
+    macro_rules! df {
+        ($ty:ident, $upd:expr) => {{
+            let mut o = $ty::default();
+            o.update(&$upd);
+            Box::new(o)
+        }};
+    }
+    match *d {
+        D::Normal(a, b) => df!(Normal, [a, b]),
+        D::Gamma(a, b) => df!(Gamma, [a, b]),
+        D::Beta(a, b) => df!(Beta, [a, b]),
+        D::Chi2(k) => df!(ChiSquared, [k as f64]),
+        D::T(v) => df!(T, [v]),
+        D::Poisson(l) => df!(Poisson, [l]),
+        D::Binomial(n, p) => df!(Binomial, [n as f64, p]),
+        D::Exp(l) => df!(Exponential, [l]),
+        D::Gumbel(a, b) => df!(Gumbel, [a, b]),
+        D::Pareto(a, b) => df!(Pareto, [a, b]),
+        D::Uniform(a, b) => df!(Uniform, [a, b]),
+        D::Du(a, b) => df!(DiscreteUniform, [a as f64, b as f64]),
+        D::Bern(p) => df!(Bernoulli, [p]),
     }
 }
 
@@ -268,6 +327,55 @@ fn step(_: &mut (), t: &mut Toks) -> R<String> {
                 alea::set_seed(seed);
                 let v = dist.sample_n(n);
                 ok(summary(v.to_vec(), k))
+            }))
+        }
+        "r" => {
+            let route = t.tok()?.to_string();
+            if !matches!(route.as_str(), "single" | "twice" | "clone" | "default") {
+                return Err(BadOp);
+            }
+            let name = t.tok()?;
+            let (seed, n) = (t.u64()?, t.usize()?);
+            let d = parse_dist(name, t)?;
+            t.end()?;
+            Ok(capped(Duration::from_secs(30), move || {
+                let dist = match route.as_str() {
+                    "clone" => build_clone(&d),
+                    "default" => build_default(&d),
+                    _ => build(&d),
+                };
+                alea::set_seed(seed);
+                let v: Vec<f64> = match route.as_str() {
+                    "single" => (0..n).map(|_| dist.sample()).collect(),
+                    "twice" => {
+                        let mut a = dist.sample_n(n / 3).to_vec();
+                        a.extend(dist.sample_n(n - n / 3).to_vec());
+                        a
+                    }
+                    _ => dist.sample_n(n).to_vec(),
+                };
+                ok(with_state(show_fs(&v)))
+            }))
+        }
+        "mvns" => {
+            let (seed, n, d) = (t.u64()?, t.usize()?, t.usize()?);
+            let mean = t.f64s(d)?;
+            let (cr, cc) = (t.usize()?, t.usize()?);
+            let cov = t.f64s(cr * cc)?;
+            t.end()?;
+            Ok(capped(Duration::from_secs(30), move || {
+                let c = Matrix::new(cov, cr as i32, cc as i32);
+                let dist = MVN::new(mean, c);
+                alea::set_seed(seed);
+                let mut data: Vec<f64> = Vec::new();
+                let mut cols = dist.get_dim();
+                for _ in 0..n {
+                    let x = dist.sample();
+                    cols = x.len();
+                    data.extend(x.to_vec());
+                }
+                let body = format!("{} {} {}", n, cols, show_fs(&data)).trim_end().to_string();
+                ok(with_state(body))
             }))
         }
         "h" | "hq" => {
